@@ -187,7 +187,7 @@ class C19(Prop):
             # blank lines between the genuine lines: they carry nothing, and must not shift what a message points at
             for _ in range(g.choice([1, 2, 4])):
                 junk.append([st.fault.choice(ss), g.choice(["", "", "   ", "\t"])])
-        return {"base": base, "junk": junk, "channel": draw_read_channel(g, ascii_only=True, allow_cr=False, used_object_p=0.06),
+        return {"twice": g.random() < 0.2, "base": base, "junk": junk, "channel": draw_read_channel(g, ascii_only=True, allow_cr=False, used_object_p=0.06),
                 "policy": Policy.draw(st.io).to_json(),
                 "rkw": g.choice([{}, {}, {"mnemonic_case": "lower"}, {"mnemonic_case": "preserve"}, {"engine": "normal"}, {"ignore_data": True},
                                  {"null_policy": "none"}])}
@@ -230,13 +230,45 @@ class C19(Prop):
             res.nontrivial = any(t.strip() and not t.strip().startswith("#") for _, t in junk)
             res.count("junk-lines", len(junk))
             # with the flag: never an exception, no interference
+            import logging
+            captured = []
+
+            class _Cap(logging.Handler):
+                def emit(self, record):
+                    if record.levelno >= logging.WARNING:
+                        try:
+                            captured.append(record.getMessage())
+                        except Exception:
+                            captured.append(str(record.msg))
+            lg = logging.getLogger("lasio.reader")
+            cap = _Cap()
+            old_level, old_prop = lg.level, lg.propagate
+            lg.addHandler(cap)
+            lg.setLevel(logging.WARNING)
+            lg.propagate = False
             try:
                 tol = read_via(fs, bad_text, sc["channel"], dict(rkw, ignore_header_errors=True), tag="c19")
+                first_warnings = list(captured)
+                if sc.get("twice"):
+                    # the same text read a second time: the skipped lines are reported again
+                    del captured[:]
+                    read_via(fs, bad_text, sc["channel"], dict(rkw, ignore_header_errors=True), tag="c19")
+                    res.count("tolerant-read-repeated")
+                    if sorted(captured) != sorted(first_warnings):
+                        res.violate("C19.warning", "the second tolerant read of the same text reported %r, the first %r | junk=%r" % (
+                            captured[:3], first_warnings[:3], [t[:60] for _, t in junk]))
+                captured[:] = first_warnings
             except Exception as e:
+                lg.removeHandler(cap)
+                lg.setLevel(old_level)
+                lg.propagate = old_prop
                 res.violate("C19.raised", "ignore_header_errors=True but read raised %s: %s | junk=%r" % (
                     type(e).__name__, str(e).strip().splitlines()[-1][:200] if str(e).strip() else "", [t[:60] for _, t in junk]))
                 res.events = fs.seq
                 return res
+            lg.removeHandler(cap)
+            lg.setLevel(old_level)
+            lg.propagate = old_prop
             tsecs, tdata = genuine(tol)
             for name, want in gsecs.items():
                 got = tsecs.get(name)
@@ -274,6 +306,9 @@ class C19(Prop):
                 except lasio.exceptions.LASHeaderError as e:
                     res.count("strict-read:LASHeaderError")
                     msg = str(e)
+                    if msg not in captured:
+                        res.violate("C19.warning", "the line that raises without the flag (%r) was skipped without that warning (warnings: %r) | junk=%r" % (
+                            msg[:120], captured[:3], [t[:60] for _, t in junk]))
                     if not any(t.strip() and t.strip() in msg for _, t in junk):
                         res.violate("C19.error-message", "LASHeaderError does not name the malformed line: %r | junk=%r" % (msg[:200], [t[:60] for _, t in junk]))
                     else:
